@@ -33,7 +33,7 @@ Fixpoint dec_fuel (f : nat) (n : N) (acc : str) : str :=
 Definition dec (n : N) : str := dec_fuel (S (N.size_nat n)) n [].
 
 (* ---------- the document as the loader sees it ---------- *)
-Inductive key := KStr (s : str) | KInt (n : N).      (* a YAML `200:` loads as an int key *)
+Inductive key := KStr (s : str) | KInt (n : N).      (* a YAML `200:` loads as an int key; parse_operations passes str(key) on *)
 Inductive pshape := POk | PNoName | PNotMap.        (* parameter node: mapping with name / mapping without / not a mapping *)
 Inductive tagsnode := TAbsent | TList (l : list str) | TBad.   (* TBad: `tags: null` or a scalar: list(...) raises *)
 Inductive strategy := SOpId | SClean | SPath.
@@ -101,7 +101,7 @@ Section Names.
   Definition parse_op_ok (st : strategy) (o : raw_op) : bool :=
     r_node_ok o                                                      (* "operationId" in None / .get on non-mapping *)
     && forallb is_pok (r_params o)                                   (* TypeError / "Parameter node must have a name" *)
-    && forallb (fun kb => is_kstr (fst kb) && snd kb) (r_resp o)     (* "code must be a string" / "node must be a Mapping" *)
+    && forallb (fun kb => snd kb) (r_resp o)                        (* "node must be a Mapping"; the key is passed as str(key) (fix of F07b) *)
     && (negb (is_nil (derive_id st o)) || is_nil (r_resp o))         (* "operation_id_for_promo must be provided" *)
     && match r_tags o with TBad => false | _ => true end.            (* list(None) *)
 
@@ -119,21 +119,46 @@ Section Names.
   Definition skipped (st : strategy) (doc : list raw_op) : list raw_op :=
     filter (fun o => negb (parse_op_ok st o)) (ops doc).
 
-  (* ---------- EndpointsEmitter._deduplicate_operation_ids_globally ---------- *)
-  Fixpoint dedup_go (seen : list (str * N)) (l : list op) : list op :=
+  (* ---------- EndpointsEmitter._deduplicate_operation_ids_globally (after the fix of F07a) ---------- *)
+  (* while sanitize(f"{id}_{suffix}") in used: suffix += 1 — the Python loop has no bound; the model
+     searches |used|+1 candidates (enough whenever different suffixes give different method names) and
+     reports exhaustion through [dedup_total] *)
+  Fixpoint find_free (fuel : nat) (used : list str) (id : str) (n : N) : option str :=
+    match fuel with
+    | O => None
+    | S f => let cand := id ++ [c_us] ++ dec n in
+             if mem_str (method_name cand) used then find_free f used id (n + 1) else Some cand
+    end.
+  Fixpoint dedup_go (used : list str) (l : list op) : list op :=
     match l with
     | [] => []
     | o :: r =>
         let m := method_name (o_id o) in
-        match alookup m seen with
-        | Some c => set_id o (o_id o ++ [c_us] ++ dec (c + 1)) :: dedup_go (aset seen m (c + 1)) r
-        | None => o :: dedup_go (aset seen m 1) r
-        end
+        if mem_str m used then
+          match find_free (S (length used)) used (o_id o) 2 with
+          | Some i => set_id o i :: dedup_go (method_name i :: used) r
+          | None => o :: dedup_go used r            (* model bound reached (never observed) *)
+          end
+        else o :: dedup_go (m :: used) r
     end.
   Definition dedup_ops (l : list op) : list op := dedup_go [] l.
+  Fixpoint dedup_total_go (used : list str) (l : list op) : bool :=
+    match l with
+    | [] => true
+    | o :: r =>
+        let m := method_name (o_id o) in
+        if mem_str m used then
+          match find_free (S (length used)) used (o_id o) 2 with
+          | Some i => dedup_total_go (method_name i :: used) r
+          | None => false
+          end
+        else dedup_total_go (m :: used) r
+    end.
+  Definition dedup_total (l : list op) : bool := dedup_total_go [] l.
   (* ClientGenerator.generate calls endpoints_emitter.emit(ir.operations, …) twice on the direct
      path (the second call sits inside a log f-string); the ids are mutated in place, the files
-     of the second call overwrite the first and the later emitters see the twice-processed ids *)
+     of the second call overwrite the first and the later emitters see the twice-processed ids.
+     With the idempotent de-dup the second pass changes nothing (Proofs: emitted_unique). *)
   Definition emitted_ops (l : list op) : list op := dedup_ops (dedup_ops l).
 
   (* ---------- grouping in EndpointsEmitter.emit ---------- *)
@@ -147,8 +172,17 @@ Section Names.
     | (k', l) :: d' => if str_eqb k k' then (k', l ++ [v]) :: d' else (k', l) :: aappend d' k v
     end.
 
+  (* keys_of_op: a second spelling of a tag already seen on THIS operation does not append the
+     operation again (fix of F07c); the candidate spelling is still recorded (cand_step) *)
+  Fixpoint dedup_keys_go (seen : list str) (ts : list str) : list str :=
+    match ts with
+    | [] => []
+    | t :: r => if mem_str (tag_key t) seen then dedup_keys_go seen r
+                else t :: dedup_keys_go (tag_key t :: seen) r
+    end.
+  Definition group_tags (o : op) : list str := dedup_keys_go [] (tags_or_default o).
   Definition group_step (d : list (str * list op)) (o : op) : list (str * list op) :=
-    fold_left (fun d t => aappend d (tag_key t) o) (tags_or_default o) d.
+    fold_left (fun d t => aappend d (tag_key t) o) (group_tags o) d.
   Definition group (l : list op) : list (str * list op) := fold_left group_step l [].
 
   Definition cand_step (d : list (str * list str)) (o : op) : list (str * list str) :=
@@ -261,15 +295,9 @@ Section Names.
     skipped st doc <> [] -> generate st doc = Failed.
 
   (* ---------- executable guards (one per finding) ---------- *)
-  (* F07a: one de-dup pass already yields unique method names *)
-  Definition guard_F07a (l : list op) : bool :=
-    nodupb (map (fun o => method_name (o_id o)) (dedup_ops l)).
-  (* F07b: no operation is skipped *)
-  Definition guard_F07b (st : strategy) (doc : list raw_op) : bool :=
+  (* F07f (the blanket except): no operation is skipped *)
+  Definition guard_F07f (st : strategy) (doc : list raw_op) : bool :=
     forallb (parse_op_ok st) (ops doc).
-  (* F07c: no operation carries two tags with the same normalised key *)
-  Definition guard_F07c (l : list op) : bool :=
-    forallb (fun o => nodupb (map tag_key (tags_or_default o))) l.
   (* F07d: every tag's module/attribute name is a Python identifier *)
   Definition all_tags (l : list op) : list str := flat_map tags_or_default l.
   Definition guard_F07d (l : list op) : bool :=
